@@ -77,7 +77,7 @@ impl Default for LocalSchemeManager {
 }
 
 fn is_pattern(input: &str) -> bool {
-    input.contains('?') | input.contains('*') | input.contains('[')
+    input.contains('?') | input.contains('*') | input.contains('[') | input.contains('\\')
 }
 
 fn terminator_escape(terminator: Option<char>) -> String {
